@@ -53,7 +53,9 @@ CLAIMED["C03"] = dict(
     engine="tlc+selection", design_ref="4.3",
     technique="TLA+ transcription of the decision pipeline (Selection.tla); TLC evaluates NoBlackout / "
               "LastUsableNeverGated on every vector of the enumerated input space; every vector replayed on the real "
-              "select_connection_idx",
+              "select_connection_idx"
+              "; the UNMODIFIED event loop (run_sender_with_config on a paused clock, real sockets) recorded end to end and "
+              "validated by TLC against the observer Trace_Loop.tla (while an uplink is usable nothing accepted is dropped: on the wire within a flush tick, in schedules where the stall guard demonstrably engages)",
     text="The selector's input space (phase x connected x timed-out x latch/pull x weak/loss-degraded x in-flight "
          "cap x score grid, both modes, guard on/off, every previous index, 1-2 links exhaustively, 3 links in the "
          "thorough tier) is enumerated by TLC, which checks that the specification never drops a packet while a "
